@@ -29,6 +29,7 @@ func condKey(v ssa.Value) string {
 type Path struct {
 	Blocks []*ssa.BasicBlock
 	Edges  []int // Edges[i] = successor index taken out of Blocks[i] (len = len(Blocks)-1)
+	Next   *ssa.BasicBlock // for a path cut at a loop header: the header the last block jumps to (nil otherwise)
 }
 
 // EnumPaths enumerates acyclic paths starting at `start` (entered with the given initial facts) until
@@ -57,7 +58,7 @@ func EnumPaths(start *ssa.BasicBlock, facts map[string]bool, stop func(*ssa.Basi
 				ok = false
 				return
 			}
-			visit(Path{append([]*ssa.BasicBlock{}, blocks...), append([]int{}, edges...)})
+			visit(Path{append([]*ssa.BasicBlock{}, blocks...), append([]int{}, edges...), nil})
 			return
 		}
 		var iff *ssa.If
